@@ -254,6 +254,15 @@ def rand_text(r, P, U):
                     t.append(r.choice(P["seconds"]))
     t = [c for c in t if c not in U.vs and not (0xD800 <= c <= 0xDFFF)]
     t = t or [0x41]
+    if r.chance(1, 8):
+        # the buffer BEGINS with a mark run (no base in front): 2..5 marks of drawn classes, in no particular order
+        lead = []
+        for _ in range(r.range(2, 5)):
+            if r.chance(1, 2):
+                lead.append(r.choice(P["latin_marks"]))
+            else:
+                lead.append(r.choice(P["by_ccc"][r.choice(sorted(P["by_ccc"]))]))
+        t = [c for c in lead if c not in U.vs] + t
     if r.chance(2, 5):
         t = add_selectors(r, t, U, P)
     return t
@@ -446,6 +455,14 @@ def classify_run(ln, out):
         ks.append("single")
     if len(inp) > 32:
         ks.append("len>32")
+    if len(inp) > 1:
+        try:
+            if unicodedata.combining(chr(inp[0])) and unicodedata.combining(chr(inp[1])):
+                ks.append("leading-mark-run")
+                if unicodedata.combining(chr(inp[0])) > unicodedata.combining(chr(inp[1])):
+                    ks.append("leading-mark-run:out-of-order")
+        except ValueError:
+            pass
     for j in range(1, len(inp) - 1):
         try:
             ch, nx = chr(inp[j]), chr(inp[j + 1])
@@ -1085,6 +1102,236 @@ def search_reorder(ctx, shim, U, r, per_combo, cross):
                          "marks separated by a mark of class 0 (Mn / Me / Mc), in both orders: glyphs of the text as it is")
 
 
+# scripts whose shaper has a normalization preference other than NONE (ot_shaper_*.rs): tag, blocks of the script's
+# own marks, a base letter.  The shaper is chosen by the script alone on a font without GSUB.
+LEADING_SCRIPTS = [
+    ("Latn", "default", [(0x300, 0x36F), (0x1AB0, 0x1AFF), (0x1DC0, 0x1DFF), (0x20D0, 0x20FF)], 0x61),
+    ("Grek", "default", [(0x300, 0x36F)], 0x3B1),
+    ("Cyrl", "default", [(0x483, 0x487), (0x2DE0, 0x2DFF), (0xA66F, 0xA69F)], 0x430),
+    ("Arab", "arabic", [(0x610, 0x61A), (0x64B, 0x65F), (0x670, 0x670), (0x6D6, 0x6ED), (0x8CA, 0x8FF)], 0x628),
+    ("Syrc", "arabic", [(0x711, 0x711), (0x730, 0x74A)], 0x712),
+    ("Hebr", "hebrew", [(0x591, 0x5C7)], 0x5D1),
+    ("Thai", "thai", [(0xE38, 0xE3A), (0xE48, 0xE4B)], 0xE01),
+    ("Laoo", "thai", [(0xEB8, 0xEBA), (0xEC8, 0xECB)], 0xE81),
+    ("Deva", "indic", [(0x93C, 0x93C), (0x94D, 0x94D), (0x951, 0x954)], 0x915),
+    ("Beng", "indic", [(0x9BC, 0x9BC), (0x9CD, 0x9CD), (0x9FE, 0x9FE)], 0x995),
+    ("Telu", "indic", [(0xC3C, 0xC3C), (0xC4D, 0xC4D), (0xC55, 0xC56)], 0xC15),
+    ("Khmr", "khmer", [(0x17D2, 0x17D2), (0x17DD, 0x17DD)], 0x1780),
+    ("Mymr", "myanmar", [(0x1037, 0x103A), (0x108D, 0x108D)], 0x1000),
+    ("Tibt", "use", [(0xF18, 0xF19), (0xF35, 0xF39), (0xF71, 0xF87), (0xFC6, 0xFC6)], 0xF40),
+    ("Java", "use", [(0xA9B3, 0xA9B3), (0xA9C0, 0xA9C0)], 0xA984),
+    ("Lana", "use", [(0x1A60, 0x1A7F)], 0x1A20),
+]
+
+
+def stable_by_mcc(U, t):
+    """every maximal run of characters with a non-zero modified combining class, stably sorted by that class (runs
+    longer than MAX_COMBINING_MARKS are documented to stay as they are)"""
+    out, i = [], 0
+    while i < len(t):
+        if U.mcc.get(t[i], 0) == 0:
+            out.append(t[i]); i += 1
+            continue
+        j = i
+        while j < len(t) and U.mcc.get(t[j], 0) != 0:
+            j += 1
+        run = t[i:j]
+        out += sorted(run, key=lambda c: U.mcc[c]) if len(run) <= U.max_marks else run
+        i = j
+    return out
+
+
+def search_leading(ctx, shim, U, r, per_script):
+    """texts that BEGIN with a run of marks (a defective combining sequence at the start of the buffer): every
+    permutation of marks with pairwise different classes is canonically equivalent and must give the same glyphs,
+    under every shaper that normalizes; for the default shaper the order is also checked absolutely"""
+    generic = [c for c in range(0x300, 0x370) if U.mcc.get(c, 0) != 0 and c not in U.decomp]
+    groups, meta = [], []
+    for tag, shaper, blocks, base in LEADING_SCRIPTS:
+        own = [c for lo, hi in blocks for c in range(lo, hi + 1)
+               if U.mcc.get(c, 0) != 0 and U.ccc.get(c, 0) != 0 and c not in U.decomp and c in U.marks]
+        if not own:
+            continue
+        tuples = []
+        for _ in range(per_script):
+            k = r.choice([2, 2, 3, 3, 4, 5])
+            pool = own if r.chance(1, 2) else own + generic
+            t, seen = [], set()
+            for _ in range(40):
+                c = r.choice(pool)
+                if U.ccc[c] in seen or U.mcc[c] in {U.mcc[x] for x in t}:
+                    continue
+                seen.add(U.ccc[c]); t.append(c)
+                if len(t) == k:
+                    break
+            if len(t) >= 2:
+                tuples.append(t)
+        chars = sorted({c for t in tuples for c in t} | {base, 0x20})
+        for has_dc in (True, False):
+            g = groups_from_set(chars + ([0x25CC] if has_dc else []))
+            lines = [f"font L {build_font(g).hex()}"]
+            cases = []
+            for t in tuples:
+                asc = sorted(t, key=lambda c: U.mcc[c])
+                desc = asc[::-1]
+                mid = r.sample(t, len(t))
+                if mid == asc or mid == desc:
+                    mid = asc[1:] + asc[:1]
+                tail = r.choice([[], [], [base], [base], [base, r.choice(t)], [0x20]])
+                flags = r.choice([0, 0, 1, 3, 0x10, 0x11])
+                pre = r.choice(["-", "-", "-", f"{base:x}"])
+                level = r.below(2)
+                d = r.choice(["-", "-", "l", "r"])
+                perms = []
+                for p in (desc, mid, asc):
+                    if p not in perms:
+                        perms.append(p)
+                for p in perms:
+                    txt = p + tail
+                    tt = ",".join(f"{c:x}:{i}" for i, c in enumerate(txt))
+                    lines.append(f"shape L {d} {tag} - {flags} {level} - {pre} - {tt}")
+                cases.append((perms, tail, flags, pre, d))
+            groups.append(lines)
+            meta.append((tag, shaper, has_dc, g, cases))
+    outs = vlib.run_groups(shim, groups, timeout=900)
+    n = nontriv = nbad = nabs = 0
+    dist = {}
+    bad_by = {}
+    for (tag, shaper, has_dc, g, cases), o, grp in zip(meta, outs, groups):
+        i = 1
+        for perms, tail, flags, pre, d in cases:
+            lns, res = grp[i:i + len(perms)], o[i:i + len(perms)]
+            i += len(perms)
+            gl = [parse_shape(x) for x in res]
+            n += len(perms)
+            nontriv += len(perms) - 1
+            dotted = has_dc and (flags & 1) and not (flags & 0x10) and pre == "-"
+            for k_ in (shaper, f"marks:{len(perms[0])}", "tail:" + ("none" if not tail else "space" if tail == [0x20] else "base" if len(tail) == 1 else "base+mark"),
+                       f"flags:{flags}", "font-has-25CC" if has_dc else "font-lacks-25CC", "pre-context" if pre != "-" else "no-pre-context",
+                       "dotted-circle-due" if dotted else "no-dotted-circle"):
+                dist[k_] = dist.get(k_, 0) + 1
+            bad = None
+            if any(x is None for x in gl) or any(x != gl[0] for x in gl[1:]):
+                j = next((j for j in range(1, len(gl)) if gl[j] != gl[0]), 0) if None not in gl else gl.index(None)
+                j2 = 0 if j else 1 if len(gl) > 1 else 0
+                bad = (f"{tag} ({shaper} shaper): texts that begin with the same marks in two canonically equivalent orders "
+                       f"shape differently: {lns[j].split()[10]} -> {gl[j]}, {lns[j2].split()[10]} -> {gl[j2]} "
+                       f"(classes {[U.ccc[c] for c in perms[0]]})",
+                       {"stage": "search", "stream": "reorder-leading", "font_line": grp[0], "request": lns[j], "request2": lns[j2],
+                        "observed": res[j], "observed2": res[j2], "script": tag, "shaper": shaper})
+            elif shaper == "default" and d != "r":
+                # absolute: the glyphs of the canonically ordered text, after a dotted circle where one is due
+                nabs += 1
+                expect = ([0x25CC] if dotted else []) + stable_by_mcc(U, perms[0] + tail)
+                want = [glyph_of(g, c) for c in expect]
+                if gl[0] != want:
+                    bad = (f"{tag}: text {lns[0].split()[10]} that begins with a mark run is not shaped in canonical order: "
+                           f"{gl[0]}, expected {want} ({['%04X' % c for c in expect]})",
+                           {"stage": "search", "stream": "reorder-leading", "font_line": grp[0], "request": lns[0],
+                            "expected_glyphs": want, "observed": res[0], "script": tag, "shaper": shaper})
+            if bad:
+                nbad += 1
+                bad_by[shaper] = bad_by.get(shaper, 0) + 1
+                if nbad <= 3 or (bad_by[shaper] == 1 and nbad <= 6):
+                    ctx.violation(*bad)
+    ctx.note_search("reorder-leading", n, nontriv, distribution=dist, deviations=nbad, absolute_checks=nabs,
+                    deviations_by_shaper=bad_by,
+                    rule="texts that begin with a run of 2..5 marks of pairwise different non-zero classes (the script's own "
+                         "marks, half of the time mixed with U+03xx), in descending, shuffled and ascending class order, alone "
+                         "or followed by a base / base + mark / space; flags default, BEGINNING_OF_TEXT (+END), "
+                         "DO_NOT_INSERT_DOTTED_CIRCLE; with and without pre-context; cmap-only fonts with and without U+25CC; "
+                         "cluster levels 0/1; native, guessed and forced directions; one script per shaper whose normalization "
+                         "preference is not NONE (default, arabic, hebrew, thai, indic, khmer, myanmar, use): all orders must "
+                         "give the same glyphs; for the default shaper also the glyphs of the canonically ordered text (after a "
+                         "dotted circle where one is due); non-trivial = every order but the first")
+
+
+def parse_groups_spec(spec):
+    if spec == "-":
+        return []
+    out = []
+    for g in spec.split(","):
+        rg, gid = g.split(":")
+        lo, hi = rg.split("-")
+        out.append((int(lo), int(hi), int(gid)))
+    return out
+
+
+def promote_run_disagreements(ctx, shim, U, dis, limit):
+    """A `norm-run` request on which the crate and the model disagree is a candidate failing input of the property:
+    its text and its font are handed to shape() (public API, default shaper, the request's cluster level) and judged
+    by two oracles that need no model: (1) canonical order — the text with every run of marks stably sorted by class
+    is canonically equivalent and must give the same glyphs; (2) cut — the text shapes to the concatenation of its
+    pieces cut before every non-mark character that follows a mark or precedes one (cluster by cluster).
+    Nothing is assumed about WHY the two disagreed."""
+    if not dis:
+        ctx.note_search("promoted-norm-run", 0, 0, rule="no norm-run disagreement to promote in this run")
+        return
+    cand = sorted(dis, key=lambda d: len(d["request"].split()[-1]))[:limit]
+    groups, meta = [], []
+    for d in cand:
+        t = d["request"].split()
+        if t[1] == "runv":
+            level, nfvs, fonthex, ttok = t[3], t[5], t[6], t[9]
+        else:
+            level, nfvs, fonthex, ttok = t[3], "-", t[5], t[7]
+        recs = parse_text_tok(ttok)
+        text = [x[0] for x in recs]
+        if any(c in U.vs for c in text) or any(is_di(U, c) for c in text):
+            flags = 4             # selectors / ignorables stay visible
+        else:
+            flags = 0
+        extra = f" nfvs={nfvs}" if nfvs != "-" else ""
+
+        def line(cps, cls):
+            tt = ",".join(f"{c:x}:{cl}" for c, cl in zip(cps, cls))
+            return f"shape P l Latn - {flags} {level} - - - {tt}{extra}"
+        cls = list(range(len(text)))
+        canon = stable_by_mcc(U, text)
+        # pieces: cut before a non-mark character whenever a mark is adjacent (the normalizer's own cluster borders)
+        cuts = [0]
+        for i in range(1, len(text)):
+            if text[i] not in U.marks and (text[i - 1] in U.marks or (i + 1 < len(text) and text[i + 1] in U.marks)):
+                cuts.append(i)
+        cuts.append(len(text))
+        pieces = [text[a:b] for a, b in zip(cuts, cuts[1:]) if b > a]
+        lines = [f"font P {fonthex}", line(text, cls), line(canon, cls)] + \
+                [line(p, cls[:len(p)]) for p in (pieces if len(pieces) > 1 else [])]
+        groups.append(lines)
+        meta.append((d, text, canon, pieces if len(pieces) > 1 else []))
+    outs = vlib.run_groups(shim, groups, timeout=900)
+    n = nbad = ntriv = 0
+    for (d, text, canon, pieces), o, grp in zip(meta, outs, groups):
+        n += 1
+        got, gcanon = parse_shape(o[1]), parse_shape(o[2])
+        parts = [parse_shape(x) for x in o[3:]]
+        bad = None
+        if canon != text and (got is None or got != gcanon):
+            bad = (f"promoted norm-run disagreement: text {['%04X' % c for c in text]} and its canonical reordering "
+                   f"{['%04X' % c for c in canon]} shape differently: {got} vs {gcanon}",
+                   {"stage": "search", "stream": "promoted-norm-run", "oracle": "canonical-order", "font_line": grp[0],
+                    "request": grp[1], "request2": grp[2], "observed": o[1], "observed2": o[2],
+                    "from_correspondence": d["request"][:200] + " …", "impl": d["impl"], "model": d["model"]})
+        elif pieces and (got is None or None in parts or got != [y for x in parts for y in x]):
+            bad = (f"promoted norm-run disagreement: text {['%04X' % c for c in text]} does not shape to the concatenation "
+                   f"of its clusters shaped on their own: {got} vs {parts}",
+                   {"stage": "search", "stream": "promoted-norm-run", "oracle": "cut", "font_line": grp[0], "request": grp[1],
+                    "part_requests": grp[3:], "expected_glyphs": None if None in parts else [y for x in parts for y in x],
+                    "observed": o[1], "observed_parts": o[3:],
+                    "from_correspondence": d["request"][:200] + " …", "impl": d["impl"], "model": d["model"]})
+        if canon == text and not pieces:
+            ntriv += 1
+        if bad:
+            nbad += 1
+            if nbad <= 3:
+                ctx.violation(*bad)
+    ctx.note_search("promoted-norm-run", n, n - ntriv, deviations=nbad, disagreements=len(dis),
+                    rule="the shortest norm-run requests on which crate and model disagree, handed to shape() with their own "
+                         "font (default shaper, the request's cluster level): the text must shape like its canonical "
+                         "reordering (every mark run stably sorted by class) and like the concatenation of its clusters "
+                         "shaped on their own; non-trivial = one of the two comparisons is between different requests")
+
+
 def context_pieces(r, marks):
     """texts that may stand before / after a starter + marks cluster; each starts with a non-mark (or is a lone run
     of selectors at the very start of the text), so the normalizer treats it as clusters of its own"""
@@ -1285,11 +1532,15 @@ def run(ctx):
     ctx.correspond("norm-prims", lines=prim_lines(U, ctx.rng("prims"), ctx.budget(4000, 100000), full=not ctx.quick),
                    classify=lambda ln, out: [ln.split()[1] + (":none" if out == "-" else "") +
                                              (":" + out if ln.split()[1] == "depth" else "")])
-    ctx.correspond("norm-run", lines=gen_run_lines(ctx.rng("run"), ctx.budget(30000, 400000), U), classify=classify_run)
+    dis = ctx.correspond("norm-run", lines=gen_run_lines(ctx.rng("run"), ctx.budget(30000, 400000), U), classify=classify_run)
     RD, RC = ref_tables()
     replay_known(ctx, shim)
     search_cap(ctx, shim)
     search_reorder(ctx, shim, U, ctx.rng("reorder"), ctx.budget(3, None), ctx.budget(8, None))
+    search_leading(ctx, shim, U, ctx.rng("reorder-leading"), ctx.budget(40, 600))
+    # a model / crate disagreement is promoted into a property-level input: the disagreeing requests themselves are
+    # shaped through the public API and judged by model-free oracles
+    promote_run_disagreements(ctx, shim, U, dis, ctx.budget(60, 400))
     search_singles(ctx, shim, U, RD, ctx.budget(2, 1))
     search_strings(ctx, shim, U, RD, RC, ctx.rng("strings"), ctx.budget(100, 10 ** 6), ctx.budget(1, 2),
                    ctx.budget(40, 120))
@@ -1299,11 +1550,11 @@ def run(ctx):
 
 def replay(ctx, rp):
     shim = vlib.build_harness()
-    if rp.get("stream") == "reorder":
+    if rp.get("stream") in ("reorder", "reorder-leading", "promoted-norm-run") and "request2" in rp:
         o = vlib.run_groups(shim, [[rp["font_line"], rp["request"], rp["request2"]]], nproc=1)[0]
         print("order 1:", o[1]); print("order 2:", o[2])
         return 0 if parse_shape(o[1]) == parse_shape(o[2]) and parse_shape(o[1]) is not None else 1
-    if rp.get("stream") in ("context", "blockers-cut"):
+    if rp.get("stream") in ("context", "blockers-cut") or (rp.get("stream") == "promoted-norm-run" and "part_requests" in rp):
         o = vlib.run_groups(shim, [[rp["font_line"], rp["request"]] + rp["part_requests"]], nproc=1)[0]
         print("whole:", o[1])
         for x in o[2:]:
